@@ -6,6 +6,7 @@ import (
 	"math/rand"
 	"strings"
 	"testing"
+	"time"
 
 	"github.com/containerd/nri/pkg/api"
 	"github.com/containerd/nri/pkg/stub"
@@ -28,6 +29,10 @@ type C19W struct {
 	// Kills: the plugin's connection dies (or its stub is stopped) while the runtime callback of
 	// the given call is in progress.
 	Kills []C19Kill `json:"kills,omitempty"`
+	// SlowMs > 0: every plugin handler takes that much simulated time (below the request timeout of
+	// 400 ms used in such runs), so that a request holds the adaptation lock for longer than one
+	// request timeout while unsolicited updates wait behind it.
+	SlowMs int `json:"slow_ms,omitempty"`
 }
 
 type C19Kill struct {
@@ -54,6 +59,9 @@ func c19Gen(rng *rand.Rand, conf string, idx int) any {
 			calls = append(calls, cl)
 		}
 		w.Calls = append(w.Calls, calls)
+	}
+	if rng.Intn(4) == 0 {
+		w.SlowMs = 250
 	}
 	if rng.Intn(3) == 0 {
 		k := rng.Intn(n)
@@ -96,8 +104,22 @@ func c19Run(t *testing.T, wl any, sc SchedCfg) *Result {
 	w := wl.(*C19W)
 	return Bubble(t, sc, func(e *Env) {
 		res := e.Res
-		h := NewH1(e, hugeTimeout, hugeTimeout)
+		treq := hugeTimeout
+		if w.SlowMs > 0 {
+			treq = 400 * time.Millisecond
+			e.S.IdleLimit = 400
+			e.S.Probe("C19.requests-longer-than-the-request-timeout")
+		}
+		h := NewH1(e, treq, hugeTimeout)
 		h.UpdGate = true
+		if w.SlowMs > 0 {
+			h.Script = func(plugin, rpc, token string) *Reply {
+				if rpc == "Synchronize" {
+					return nil
+				}
+				return &Reply{SleepMs: w.SlowMs}
+			}
+		}
 		// which call does an update list belong to?
 		callOf := func(u []*api.ContainerUpdate) (string, int, bool) {
 			if len(u) == 0 {
